@@ -30,9 +30,9 @@ MENU = {
     'chmod': [E.EPERM],
     'stat': [E.EACCES],
     'fsync': [E.EIO],
-    'rename': [E.EACCES, E.EXDEV],
+    'rename': [E.EACCES, E.EXDEV, E.ENOSPC],
     'replace': [E.EACCES, E.EXDEV],
-    'link': [E.EEXIST, E.EXDEV, E.EACCES],
+    'link': [E.EEXIST, E.EXDEV, E.EACCES, E.EPERM],
     'unlink': [E.EACCES],
     'raw_write': [E.ENOSPC, E.EIO],
     'raw_close': [E.EIO],
